@@ -1020,6 +1020,52 @@ class Repo:
         return self.subclasses('Field')
 
     # ---------------------------------------------------------- templates
+    def _named_templates(self, fi, ref):
+        """[(name, text)] for a template referred to by name: a module-level constant, a class-level
+        constant (self.X / Class.X / cls.X), or a parameter of ``fi`` to which every caller in the
+        module passes such a constant"""
+        mod = self.modules[fi.module]['tree']
+
+        def const_of(e):
+            name = None
+            if isinstance(e, ast.Name):
+                name = e.id
+                for st in mod.body:
+                    if isinstance(st, ast.Assign) and len(st.targets) == 1 and isinstance(st.targets[0], ast.Name) and st.targets[0].id == name \
+                            and isinstance(st.value, ast.Constant) and isinstance(st.value.value, str):
+                        return name, st.value.value
+            if isinstance(e, ast.Attribute) and isinstance(e.value, ast.Name) and (e.value.id in ('self', 'cls') or e.value.id in self.classes):
+                owner = fi.cls if e.value.id in ('self', 'cls') else self.classes[e.value.id]
+                if owner is not None:
+                    for k in self.mro(owner):
+                        for st in k.node.body:
+                            if isinstance(st, ast.Assign) and len(st.targets) == 1 and isinstance(st.targets[0], ast.Name) and st.targets[0].id == e.attr \
+                                    and isinstance(st.value, ast.Constant) and isinstance(st.value.value, str):
+                                return e.attr, st.value.value
+            return None
+        c = const_of(ref)
+        if c is not None:
+            return [c] if ('\n' in c[1] and HOLE.search(c[1])) else []
+        if isinstance(ref, ast.Name):
+            a = fi.node.args
+            params = [x.arg for x in a.args]
+            if ref.id in params:
+                idx = params.index(ref.id) - (1 if params and params[0] in ('self', 'cls') and fi.cls is not None else 0)
+                got = []
+                for other in self.functions.values():
+                    if other.module != fi.module:
+                        continue
+                    for call in ast.walk(other.node):
+                        if isinstance(call, ast.Call) and ((isinstance(call.func, ast.Attribute) and call.func.attr == fi.node.name) or (isinstance(call.func, ast.Name) and call.func.id == fi.node.name)):
+                            arg = call.args[idx] if 0 <= idx < len(call.args) else next((k.value for k in call.keywords if k.arg == ref.id), None)
+                            cc = const_of(arg) if arg is not None else None
+                            if cc is None:
+                                return []
+                            if cc not in got:
+                                got.append(cc)
+                return [g for g in got if '\n' in g[1] and HOLE.search(g[1])]
+        return []
+
     def templates(self):
         """the string templates of codegen.py parsed with typed holes
         (DESIGN 2.2 / A.7).  Returns list of Template."""
@@ -1027,12 +1073,26 @@ class Repo:
         if mod is None:
             raise Undecided('bisturi/codegen.py not found')
         out = []
+        named_seen = set()
         for fi in self.functions.values():
             if fi.module != 'codegen':
                 continue
             for n in ast.walk(fi.node):
                 if hasattr(n, '_inl'):
-                    continue            # copy made by helper expansion: the template belongs to the helper
+                    # copy made by helper expansion: the template belongs to the helper -- except that a
+                    # template *parameter* of the helper is, in the copy, the constant this caller passed
+                    if isinstance(n, ast.BinOp) and isinstance(n.op, ast.Mod) and isinstance(n.left, (ast.Name, ast.Attribute)):
+                        consts = self._named_templates(fi, n.left)
+                        right = n.right
+                        if consts and isinstance(right, ast.Dict) and consts[0][0] not in named_seen:
+                            fake = ast.BinOp(left=ast.Constant(value=consts[0][1]), op=ast.Mod(), right=right)
+                            ast.copy_location(fake, n)
+                            ast.copy_location(fake.left, n)
+                            tpl = Template(fi, fake, right)
+                            tpl.variant = tpl.named = consts[0][0]
+                            named_seen.add(consts[0][0])
+                            out.append(tpl)
+                    continue
                 texts = None
                 if isinstance(n, ast.BinOp) and isinstance(n.op, ast.Mod) and isinstance(n.left, ast.BinOp) and isinstance(n.left.op, ast.Add):
                     # a template put together from pieces: literal parts and locals that hold one
@@ -1055,6 +1115,30 @@ class Repo:
                             tpl.variant = i
                             out.append(tpl)
                     continue
+                # NAME % {...} / self.NAME % {...} / Class.NAME % {...}: the template kept in a module-level
+                # or class-level constant; PARAM % {...}: one template per constant the callers pass
+                if isinstance(n, ast.BinOp) and isinstance(n.op, ast.Mod) and isinstance(n.left, (ast.Name, ast.Attribute)) and not hasattr(n, '_tplres'):
+                    consts = self._named_templates(fi, n.left)
+                    if consts:
+                        right = n.right
+                        if isinstance(right, ast.Name):
+                            for a in ast.walk(fi.node):
+                                if isinstance(a, ast.Assign) and isinstance(a.targets[0], ast.Name) and a.targets[0].id == right.id and isinstance(a.value, ast.Dict):
+                                    right = a.value
+                        if isinstance(right, ast.Dict):
+                            for i, (label, text) in enumerate(consts):
+                                if label in named_seen:
+                                    continue
+                                named_seen.add(label)
+                                fake = ast.BinOp(left=ast.Constant(value=text), op=ast.Mod(), right=n.right)
+                                ast.copy_location(fake, n)
+                                ast.copy_location(fake.left, n)
+                                fake.lineno = n.lineno + i * 0
+                                tpl = Template(fi, fake, right)
+                                tpl.variant = label
+                                tpl.named = label
+                                out.append(tpl)
+                        continue
                 if isinstance(n, ast.BinOp) and isinstance(n.op, ast.Mod) and isinstance(n.left, ast.Constant) \
                         and isinstance(n.left.value, str) and '\n' in n.left.value and HOLE.search(n.left.value):
                     right = n.right
